@@ -1,6 +1,6 @@
 // C15 U1 (bounded stand-in, native): `glaredb_parser::parser::parse` (tokenizer + parser) is total on
-//  (a) every string of <= 4 characters over a 20-character alphabet (quotes, escapes, comment starters, digits,
-//      exponent, multi-byte characters, whitespace, operators), and
+//  (a) every string of <= 4 characters over a 22-character alphabet (quotes, escapes, comment starters, digits,
+//      exponent, multi-byte characters incl. non-ASCII numeric ones, whitespace, operators), and
 //  (b) every sequence of <= 5 tokens over a 24-token SQL vocabulary:
 // it returns Ok or Err -- no panic, no slice inside a character, no hang (each call under a deadline).
 use super::*;
@@ -22,7 +22,7 @@ fn with_deadline(what: &str, f: impl FnOnce() + Send + 'static) {
 
 #[test]
 fn c15_parse__total_on_short_strings__nat() {
-    let alphabet: Vec<char> = "a1 '\"-/*.eé$;\\\n:x(+😀".chars().collect();
+    let alphabet: Vec<char> = "a1 '\"-/*.eé$;\\\n:x(+😀²٣".chars().collect();
     let prefixes = ["", "select ", "select '", "select 1 from t where a like "];
     for (pi, prefix) in prefixes.iter().enumerate() {
         let alphabet = alphabet.clone();
